@@ -402,7 +402,10 @@ class ProgramGen(object):
             # numpy.int32 counts are not generated: numpy wraps int32 products beyond 2**31 silently
             # (count*charge with a count of 1.5e9), which is numpy's arithmetic, not the library's
             return ['ni64', rng.randint(1, 12)]
-        return ['nf64', rng.choice([0.5, 1.5, 10 ** rng.uniform(-3, 3)])]
+        if r < 0.96:
+            return ['nf64', rng.choice([0.5, 1.5, 10 ** rng.uniform(-3, 3)])]
+        # round 8: exact rational counts (fractions.Fraction), integral ones included
+        return ['frac', '%d/%d' % (rng.randint(1, 30), rng.choice([1, 2, 3, 3, 4, 5, 7, 8, 10]))]
 
     def multiplier(self, rng=None):
         rng = self.rng
@@ -430,7 +433,10 @@ class ProgramGen(object):
             return ['ni64', rng.randint(1, 12)]
         if r < 0.90:
             return ['ni32', rng.randint(1, 12)]   # as a multiplier numpy hands a Python int to __rmul__
-        return ['nf64', 10 ** rng.uniform(-6, 6)]
+        if r < 0.95:
+            return ['nf64', 10 ** rng.uniform(-6, 6)]
+        # round 8: rational multipliers (fractions.Fraction is a numbers.Rational but not an Integral)
+        return ['frac', '%d/%d' % (rng.randint(1, 30), rng.choice([1, 2, 3, 3, 4, 5, 7, 8, 10]))]
 
     # -- atoms ----------------------------------------------------------
     def random_key(self):
